@@ -32,7 +32,7 @@ class Cfg(object):
     """Configuration of one system: client side, server side(s), requests."""
 
     def __init__(self, c=None, s=None, reqs=None, answer="now", via="plain", resp_kind="ack", peerinfo=False,
-                 reorder=1, dupcap=1, label=None, views=None, reannounce=None, sidetalk=False, background=False):
+                 reorder=1, dupcap=1, label=None, views=None, reannounce=None, sidetalk=False, background=False, straggler=False):
         self.c = side(**(c or {}))
         self.s = side(**(s or {}))
         self.reqs = list(reqs or [(0, 0)])      # (request payload length, response payload length) per request
@@ -54,30 +54,34 @@ class Cfg(object):
         # the process also has a far-away timer of its own (installed before the requests are submitted), as every real
         # application has (hourly housekeeping): the task heap then holds more than the transactions' timers
         self.background = background
+        # one frame of an exchange that is already over arrives once more, at any point of a later exchange (a copy that
+        # took another path through the network)
+        self.straggler = straggler
 
     def key(self):
         return (tuple(sorted(self.c.items())), tuple(sorted(self.s.items())), tuple(self.reqs), self.answer, self.via,
                 self.resp_kind, self.peerinfo, self.reorder, self.dupcap, repr(sorted(self.views.items())),
-                repr(self.reannounce), self.sidetalk, self.background)
+                repr(self.reannounce), self.sidetalk, self.background, self.straggler)
 
     def describe(self):
         def short(d):
             return {k: v for k, v in d.items() if DEFAULTS.get(k) != v}
         return {"client": short(self.c), "server": short(self.s), "reqs": self.reqs, "answer": self.answer,
                 "via": self.via, "resp_kind": self.resp_kind, "peerinfo": self.peerinfo, "views": self.views,
-                "reannounce": self.reannounce, "sidetalk": self.sidetalk, "background": self.background}
+                "reannounce": self.reannounce, "sidetalk": self.sidetalk, "background": self.background, "straggler": self.straggler}
 
     def to_json(self):
         return {"c": self.c, "s": self.s, "reqs": [list(r) for r in self.reqs], "answer": self.answer, "via": self.via,
                 "resp_kind": self.resp_kind, "peerinfo": self.peerinfo, "reorder": self.reorder, "dupcap": self.dupcap,
-                "label": self.label, "views": self.views, "reannounce": self.reannounce, "sidetalk": self.sidetalk, "background": self.background}
+                "label": self.label, "views": self.views, "reannounce": self.reannounce, "sidetalk": self.sidetalk, "background": self.background, "straggler": self.straggler}
 
     @classmethod
     def from_json(cls, d):
         return cls(c=d["c"], s=d["s"], reqs=[tuple(r) for r in d["reqs"]], answer=d["answer"], via=d["via"],
                    resp_kind=d["resp_kind"], peerinfo=d["peerinfo"], reorder=d.get("reorder", 1),
                    dupcap=d.get("dupcap", 1), label=d.get("label"), views=d.get("views"), reannounce=d.get("reannounce"),
-                   sidetalk=d.get("sidetalk", False), background=d.get("background", False))
+                   sidetalk=d.get("sidetalk", False), background=d.get("background", False),
+                   straggler=d.get("straggler", False))
 
 
 def _device(name, ident, sd):
@@ -121,6 +125,9 @@ class AppSystem(object):
         self.server.resp_kind = cfg.resp_kind
         self.reannounced = False
         self.sidetalked = False
+        self.straggled = False
+        self.wire.keep_delivered = bool(cfg.straggler)
+        self._old_frames = 0        # how many delivered frames belong to exchanges that are over
         if cfg.peerinfo in (True, "record"):
             c_of_s = dict(cfg.s)
             c_of_s.update(cfg.views.get("c_of_s", {}))
@@ -144,6 +151,7 @@ class AppSystem(object):
         def rec(apdu, via):
             orig(apdu, via)
             ev.append(("conf",) + client.confirmations[-1])
+            self._old_frames = len(self.wire.delivered)
         client._record_confirmation = rec
 
     @property
@@ -233,6 +241,14 @@ class AppSystem(object):
             extra.append(("reannounce", 1))
         if self.cfg.sidetalk and not self.sidetalked and (fl or nd is not None):
             extra.append(("sidetalk", 1))
+        if self.cfg.straggler and not self.straggled and self._old_frames and (fl or held or nd is not None) \
+                and len(self.client.confirmations) < len(self.cfg.reqs):
+            seen = set()
+            for k in range(self._old_frames):
+                key = self.wire.delivered[k].key()
+                if key not in seen:
+                    seen.add(key)
+                    extra.append(("stale%d" % k, 1))
         if fl:
             m.append(("deliver0", 0))
             m.append(("drop0", 1))
@@ -287,6 +303,12 @@ class AppSystem(object):
             dev.maxApduLengthAccepted = sd["maxapdu"]
             dev.segmentationSupported = sd["seg"]
             self._send_iam(self.server, sd)
+        elif label.startswith("stale"):
+            fr = w.delivered[int(label[5:])]
+            self.straggled = True
+            self.faults.append(("stale", frame_label(fr.data)))
+            self.events.append(("dlv", vclock.clock.now, str(fr.dst), str(fr.src), fr.data))
+            w._deliver(fr)
         elif label == "sidetalk":
             # an unconfirmed request of the client application's own to the same peer, through the application's
             # documented entry point for unconfirmed requests; delivered at once (it is not what is being explored)
